@@ -351,6 +351,10 @@ func rootIdent(e ast.Expr) *ast.Ident {
 			e = v.X
 		case *ast.CallExpr:
 			e = v.Fun
+		case *ast.TypeAssertExpr:
+			e = v.X
+		case *ast.StarExpr:
+			e = v.X
 		case *ast.Ident:
 			return v
 		default:
